@@ -3,8 +3,9 @@
 (* client/txpool : the memory pool (C12).                                  *)
 (*                                                                         *)
 (* The algorithmic part models what the code does, index by index:         *)
-(*   pool    TransactionsToSend   tx -> [fee, vsize, mem, mic]              *)
-(*                                (mem = MemInputs, mic = MemInputCnt)     *)
+(*   pool    TransactionsToSend   tx -> [fee, vsize, sops, vol, mem, mic]   *)
+(*                                (sops = SigopsCost, vol = Volume,        *)
+(*                                 mem = MemInputs, mic = MemInputCnt)     *)
 (*   spent   SpentOutputs         set of [tx, vout, by]                    *)
 (*   orph    TransactionsRejected entries with Waiting4 (WaitingForInputs) *)
 (*   sortedL BestT2S..WorstT2S    the incrementally kept sorted list       *)
@@ -38,7 +39,7 @@ EXTENDS Amt, FiniteSets, TLC
 CONSTANTS
     BaseH,      \* height of the base chain
     TxIds,      \* ids of the scenario transactions (naturals > BaseH)
-    TxDef,      \* [TxIds -> [ins : Seq([tx, vout, ok]), outs : Seq([amt]), vsize]]
+    TxDef,      \* [TxIds -> [ins : Seq([tx, vout, ok]), outs : Seq([amt]), vsize, sops]]   (sops = BIP141 sigop cost)
     MaxBlocks,  \* bound: BlockMined steps
     MaxUndo,    \* bound: BlockUndone steps
     MaxFgn,     \* bound: transactions in a block that is not built from the listing
@@ -50,6 +51,7 @@ CONSTANTS
     AllowEvict  \* TRUE: the size-limit eviction may fire
 
 Maturity == 100
+SigopLimit == 80000     \* MAX_BLOCK_SIGOPS_COST
 
 VARIABLES
     chain,      \* blocks connected above the base: Seq([txs : Seq(TxIds), spent : SUBSET utxo entries])
@@ -106,6 +108,19 @@ SeqValid(u, txs, h) ==
          /\ ~AmtLT(InSum(t), OutSum(t))
          /\ \A e \in u : e.tx # t
          /\ SeqValid((u \ UNION {UtxoEnt(u, o) : o \in InOuts(t)}) \cup Created(t, h), Tail(txs), h)
+
+\* real sigop cost of a sequence of transactions; a block may carry SigopLimit at most
+RECURSIVE SumSops(_)
+SumSops(txs) == IF txs = <<>> THEN 0 ELSE TxDef[Head(txs)].sops + SumSops(Tail(txs))
+BlockValid(u, txs, h) == SeqValid(u, txs, h) /\ SumSops(txs) <= SigopLimit
+
+\* block assembly as client/rpcapi does it: the listing is cut where the RECORDED sigop cost would pass the limit
+RECURSIVE AssembleN(_, _, _, _)
+AssembleN(p, lst, i, acc) ==
+    IF i > Len(lst) THEN Len(lst)
+    ELSE IF acc + p[lst[i]].sops > SigopLimit THEN i - 1
+    ELSE AssembleN(p, lst, i + 1, acc + p[lst[i]].sops)
+Assemble(p, lst) == SubSeq(lst, 1, AssembleN(p, lst, 1, 0))
 
 RECURSIVE ApplySeq(_, _, _)
 ApplySeq(u, txs, h) ==
@@ -189,7 +204,7 @@ Proc(st, t, unm, trusted, pol, inBlk) ==
     ELSE IF ~unm /\ ~pol THEN refuse                                                  \* fee floor, RBF rules
     ELSE IF ~trusted /\ ~ScriptsOK(t) THEN refuse
     ELSE LET st1 == DelSet(st, R, inBlk)
-             rec == [fee |-> AmtSub(InSum(t), OutSum(t)), vsize |-> TxDef[t].vsize, mem |-> memf,
+             rec == [fee |-> AmtSub(InSum(t), OutSum(t)), vsize |-> TxDef[t].vsize, sops |-> TxDef[t].sops, vol |-> InSum(t), mem |-> memf,
                      mic |-> Cardinality({i \in 1..n : memf[i]})]
              st2 == [st1 EXCEPT !.pool = (t :> rec) @@ @,
                                 !.spent = @ \cup {[tx |-> ins[i].tx, vout |-> ins[i].vout, by |-> t] : i \in 1..n}]
@@ -349,7 +364,7 @@ MineAll(st, txs, i) == IF i = 0 THEN st ELSE MineAll(TxMined(st, txs[i]), txs, i
 \* a block is connected: the chain first, then the pool's callback (BlockCommitInProgress is set)
 BlockMined(txs, polf) ==
     /\ nMined < MaxBlocks
-    /\ SeqValid(utxo, txs, Height + 1)
+    /\ BlockValid(utxo, txs, Height + 1)
     /\ LET u1 == ApplySeq(utxo, txs, Height + 1)
            st0 == [St EXCEPT !.u = u1, !.h = Height + 1]
            st1 == MineAll(st0, txs, Len(txs))
@@ -469,8 +484,8 @@ ModesFor(t) == IF t \in DOMAIN orph THEN {"net", "local"} ELSE {"net"}
 Next ==
     \/ \E t \in TxIds : \E m \in ModesFor(t) : \E pf \in PolFs({t} \cup Waiters({t}, {})) : Submit(t, m, pf)
     \/ \E pf \in PolFs(DOMAIN orph) :
-          \/ Idle /\ obs.fresh /\ \E k \in 0..Len(obs.lst) : BlockMined(SubSeq(obs.lst, 1, k), pf)
-          \/ \E s \in ValidSeqs(utxo, Height + 1, MaxFgn) : BlockMined(s, pf)
+          \/ Idle /\ obs.fresh /\ \E k \in 0..Len(Assemble(pool, obs.lst)) : BlockMined(SubSeq(obs.lst, 1, k), pf)
+          \/ \E s \in ValidSeqs(utxo, Height + 1, MaxFgn) : BlockMined(s, pf)      \* (BlockMined refuses what exceeds the sigop limit)
     \/ BlockUndone
     \/ \E t \in DOMAIN pool : Expire({t})
     \/ \E k \in 1..2 : Evict(k)
@@ -512,6 +527,9 @@ FeeExact ==
                  /\ pool[t].fee = AmtSub(InSum(t), OutSum(t))
                  /\ pool[t].vsize = TxDef[t].vsize
 
+\* the other recorded attributes: total input value, sigop cost (legacy x 4, P2SH redeem script x 4, witness x 1)
+AttrsExact == \A t \in P : pool[t].vol = InSum(t) /\ pool[t].sops = TxDef[t].sops
+
 \* the spent-output index is exactly the inputs of the pool; the mem-input marks are exactly the pooled parents
 \* and the mem-input counter is their number
 SpentDef == UNION {{[tx |-> Ins(t)[i].tx, vout |-> Ins(t)[i].vout, by |-> t] : i \in 1..NIns(t)} : t \in P}
@@ -526,14 +544,16 @@ IsListing(L) ==
     /\ \A i, j \in 1..Len(L) : (\E k \in 1..NIns(L[j]) : Ins(L[j])[k].tx = L[i]) => i < j
 ParentsBeforeChildren == (obs.fresh /\ Idle) => IsListing(obs.lst) /\ IsListing(obs.srt)
 
-\* a block assembled from (any prefix of) the listing is valid on the chain
-TemplateValid == (obs.fresh /\ Idle) => SeqValid(utxo, obs.lst, Height + 1)
+\* a block assembled from the listing - any prefix of it, cut where the recorded sigop cost reaches the limit -
+\* is valid on the chain: everything listed is spendable in that order, and what was assembled really fits
+TemplateValid == (obs.fresh /\ Idle) => /\ SeqValid(utxo, obs.lst, Height + 1)
+                                         /\ SumSops(Assemble(pool, obs.lst)) <= SigopLimit
 
 \* the same two for the listing the pool WOULD hand out in this state (model checking only)
 ListingAlwaysGood ==
     Idle => LET L == ListNow(St)
                 R == RbfListing(pool, spent, L)
-            IN IsListing(L) /\ IsListing(R) /\ SeqValid(utxo, R, Height + 1)
+            IN IsListing(L) /\ IsListing(R) /\ SeqValid(utxo, R, Height + 1) /\ SumSops(Assemble(pool, R)) <= SigopLimit
 
 \* the incrementally kept list, while it is trusted, is a listing
 SortedListGood == (~dirty /\ Idle) => IsListing(sortedL)
@@ -607,15 +627,17 @@ StepsOK == [][StepOK]_vars
 I(tx, vout) == [tx |-> tx, vout |-> vout, ok |-> TRUE]
 IBad(tx, vout) == [tx |-> tx, vout |-> vout, ok |-> FALSE]
 O(u, e) == [amt |-> A(u, e)]
-T(ins, outs, vs) == [ins |-> ins, outs |-> outs, vsize |-> vs]
+T(ins, outs, vs) == [ins |-> ins, outs |-> outs, vsize |-> vs, sops |-> 0]
+TS(ins, outs, vs, so) == [ins |-> ins, outs |-> outs, vsize |-> vs, sops |-> so]
 MCIds == 201..206
 
+\* (201, 202, 203 cost 30000 sigops each: a block holds two of them, the assembly has to cut the listing)
 \* a chain 201-202-203 (the child pays more: CPFP), a double spend of 201 that pays more than the whole chain
 \* (204, with its own child 206: accepting it removes descendants two levels deep),
 \* and 205: double spend of 201 that also spends an output of 201 (it spends what it replaces)
-FamChain == (201 :> T(<<I(1, 1)>>, <<O(29, 99990000), O(20, 0)>>, 150)) @@
-            (202 :> T(<<I(201, 1)>>, <<O(29, 99980000)>>, 100)) @@
-            (203 :> T(<<I(202, 1)>>, <<O(29, 99950000)>>, 100)) @@
+FamChain == (201 :> TS(<<I(1, 1)>>, <<O(29, 99990000), O(20, 0)>>, 150, 30000)) @@
+            (202 :> TS(<<I(201, 1)>>, <<O(29, 99980000)>>, 100, 30000)) @@
+            (203 :> TS(<<I(202, 1)>>, <<O(29, 99950000)>>, 100, 30000)) @@
             (204 :> T(<<I(1, 1)>>, <<O(49, 99800000)>>, 120)) @@
             (205 :> T(<<I(1, 1), I(201, 2)>>, <<O(69, 99900000)>>, 200)) @@
             (206 :> T(<<I(204, 1)>>, <<O(49, 99790000)>>, 100))
